@@ -92,12 +92,16 @@ type frame struct {
 // Ctx: one path execution
 
 type Ctx struct {
-	Prog    *ssa.Program
-	Ex      *Explorer
-	IntMode bool
-	BigW    int // width of big.Int model in BV mode
+	Prog      *ssa.Program
+	Ex        *Explorer
+	S         *Solver
+	st        *Stats
+	itemModel Model
+	IntMode   bool
+	BigW      int // width of big.Int model in BV mode
 
 	pc     []*Term
+	pcSet  map[string]bool
 	model  Model
 	prefix []int
 	pos    int
@@ -109,18 +113,18 @@ type Ctx struct {
 	fresh     int
 	cellID    int
 
-	globals  map[*ssa.Global]*Cell
-	initing  map[*ssa.Global]bool
-	initFr   map[*ssa.Package]*frame
-	inputs   map[string]*Term // named symbolic inputs created on this path
+	globals    map[*ssa.Global]*Cell
+	initing    map[*ssa.Global]bool
+	initFr     map[*ssa.Package]*frame
+	inputs     map[string]*Term // named symbolic inputs created on this path
 	inputOrder []string
 	bigInputs  map[string]bool
-	choices  map[string]int   // named concrete choices
-	reached  map[string]bool
-	funcs    map[string]bool
-	log      []string
-	curFrame *frame
-	onceDone map[*Cell]bool
+	choices    map[string]int // named concrete choices
+	reached    map[string]bool
+	funcs      map[string]bool
+	log        []string
+	curFrame   *frame
+	onceDone   map[*Cell]bool
 }
 
 func (c *Ctx) abort(kind, format string, a ...interface{}) {
@@ -410,6 +414,15 @@ func (c *Ctx) addPC(t *Term) {
 		return
 	}
 	c.pc = append(c.pc, t)
+	if c.pcSet == nil {
+		c.pcSet = map[string]bool{}
+	}
+	c.pcSet[t.Key()] = true
+	if t.Op == "and" {
+		for _, a := range t.Args {
+			c.pcSet[a.Key()] = true
+		}
+	}
 }
 
 func (c *Ctx) evalModel(t *Term) (bool, bool) {
@@ -434,16 +447,20 @@ func (c *Ctx) feasible(g *Term) (bool, Model) {
 	if v, ok := c.evalModel(g); ok && v {
 		return true, c.model
 	}
+	if c.pcSet[Not(g).Key()] {
+		c.st.SyntacticPrunes++
+		return false, nil
+	}
 	q := append(append([]*Term{}, c.pc...), g)
-	r, m, _ := c.Ex.Solver.Check(q, true)
-	c.Ex.stat.FeasQueries++
+	r, m, _ := c.S.Check(q, true)
+	c.st.FeasQueries++
 	switch r {
 	case Unsat:
 		return false, nil
 	case Sat:
 		return true, m
 	}
-	c.Ex.stat.UnknownBranches++
+	c.st.UnknownBranches++
 	return true, nil
 }
 
@@ -462,7 +479,7 @@ func (c *Ctx) choose(n int, guard func(i int) *Term) int {
 		c.trace = append(c.trace, i)
 		c.addPC(g(i))
 		if c.pos == len(c.prefix) {
-			c.model = c.Ex.curModel
+			c.model = c.itemModel
 		}
 		return i
 	}
